@@ -1,7 +1,88 @@
-(* C17Proofs.v -- C17 (behavioural half): renaming the states of a statechart by an order-preserving
-   renaming commutes with every function of the interpreter model.
+(* C17Proofs.v -- C17, behavioural half: renaming the states of a statechart by an order-preserving
+   renaming commutes with every function of the interpreter model ("rename_state changes nothing
+   but the name").  The structural half (C17_structure: what rename_state / copy_from_statechart do
+   to the chart, Edit model) is NOT in this file.
 
-   (header completed at the end of the file's development -- see the summary below)
+   DEFINITIONS
+     map_state / map_trans / map_it / map_chart rho   every state-name occurrence renamed (keys of
+         c_states, c_parent, c_children; s_name, s_initial, s_memory; parents; children lists;
+         t_source, t_target); code, events, priorities and the order of all lists are kept.
+     map_istate rho   i_config, keys and value lists of i_memory, keys of i_entry / i_idle, the OState
+         keys of i_old (OTrans i is kept).   map_micro, map_macro: entered / exited lists.
+     map_call rho (cl_owner, cl_config), map_meta rho (MExited / MEntered / MProcessed), map_err rho
+         (owner of EContract / ECode), map_obs rho, map_mstate rho fx (state, listener state, trace),
+         map_outcome rho (result of execute_once).
+     chart_names sc   the names the interpreter ever compares with <= : s_name of the state objects,
+         the children lists, the transition sources.   inN sc n := In n (chart_names sc).
+     closed sc s      side condition on the interpreter state: configuration and the value lists of
+         the history memory are inside chart_names.  Holds initially (closed_init) and is preserved
+         by every operation (second conjunct of every theorem), so it is no restriction on runs.
+     run_ops          a history: list of  OpQueue e | OpStep now  (queue / execute_once).
+
+   HYPOTHESES of the main theorems (Section Equi)
+     rho_inj    forall a b, rho a = rho b -> a = b          GLOBAL injectivity (see [*] below)
+     rho_empty  rho "" = ""                                  (`while parent:` / `if target:` test
+                                                              truthiness of names; with rho_inj this
+                                                              gives rho n <> "" for n <> "")
+     rho_mono   forall a b, inN sc a -> inN sc b -> str_leb (rho a) (rho b) = str_leb a b
+                                                             monotone ONLY on the chart's names
+     exec_indep / eval_indep   exec_code' (map_call rho c) x = exec_code c x   (two evaluators are
+                allowed; take exec_code' = exec_code for "the evaluator ignores state names")
+     emit_equi  emit' t (map_meta rho m) (fx x) = (fx x', option_map (map_err rho) r)
+                where (x', r) = emit t m x   (listeners equivariant; fx relates their states)
+     NO well-formedness (section 2) hypothesis on the chart is needed.
+
+   MAIN THEOREMS  (all Qed, closed under the global context)
+     C17_equivariance        execute_once on (map_chart rho sc) from (map_mstate s) = (map_mstate of
+                             the post-state, map_outcome of the result): macro step with renamed
+                             entered/exited lists, same transition indices, same events and sent
+                             lists, or the rho-image of the error; trace = image; closed preserved.
+     C17_equivariance_queue  the same for queue.
+     C17_equivariance_execute  the same for execute (loop of execute_once).
+     C17_equivariance_run    the same for every history (run_ops), by induction.
+     C17_equivariance_same_evaluator   instance X' = X, one evaluator, one emit.
+     injection_extends  [*]  every rho0 that is injective on a finite list L and maps exactly "" to ""
+                             on L coincides on L with a global injection fixing "" (product of
+                             transpositions: extend / swap).
+     map_chart_ext           map_chart only depends on rho on all_occ sc (every name occurring).
+     C17_equivariance_local  hypotheses restricted to a finite L >= all_occ sc: rho0 injective on L,
+                             (rho0 a = "" <-> a = "") on L, monotone on chart_names, evaluator and
+                             listeners ignore names (for every renaming).  Conclusion: the run of
+                             map_chart rho0 sc is the image of the run of sc under a global
+                             injection rho that agrees with rho0 on L.  So global injectivity in
+                             Section Equi is no loss of generality for finitely many names.
+     C17_monotonicity_needed a global injection fixing "" that is not monotone (a <-> c with sibling
+                             b) changes the run: orthogonal siblings are entered / exited in the
+                             order of their new names.  (Not a refutation of a planned statement:
+                             it shows that rho_mono cannot be dropped.)
+     Nothing was found to be false: no `_refuted`, no `_partial`.
+
+   COVERAGE -- an equivariance lemma (`f_rho` pure, `f_eqv` monadic) for EVERY function:
+     Base   lookup dset mem remove_first set_add sort(insert) sorted_groupby(group_add groups_of)
+     Chart  state_for kind_of parent_for children_for root truthy ancestors_for depth_for bfs
+            descendants_for least_common_ancestor leaf_for itransitions
+     Interp owner_state old_lookup old_set mk_call queue_event select_event configuration
+            considered last_before stays_below check_pair check_against check_pairs trans_order_leb
+            exit_order_leb enter_order_leb entered_path create_step create_steps stab_for_leaf
+            stab_for_orthogonal first_some create_stabilization_step states_for
+            raise_meta raise_event run_code eval_cond eval_conds contract state_contract
+            trans_contract eval_guards sel_priorities sel_sources sel_depths sel_eventness
+            select_transitions sort_transitions compute_steps record_history exit_state
+            enter_state process_transition apply_step stabilize consume_event run_steps
+            check_invariants execute_once execute queue
+     Not covered (outside the statement): dremove, index_of, insert_at (not used by the functions
+     above with names), World.v listeners (emit is abstract: emit_equi is a hypothesis), Edit.v.
+
+   PROOF METHOD  a logical relation  EQV P fa m' m  between the two monadic computations:
+     from related (closed) states they produce related states and results (fa), keep `closed`, and
+     the result satisfies P; rules eqv_ret / fail / bind / get_bind / put / modify / observe / mapM /
+     iterM.  Sorting: sort_map_cond (comparison preserved on the elements at hand).
+
+   NON-VACUITY  Module Example: orthogonal state with two compound regions, a shallow history state,
+     guards, actions sending internal events, exit code, invariants; rho_ex = "a"->"a2", "b"->"b7"
+     (C17_hypotheses_satisfiable, C17_example_by_theorem, C17_example_by_computation,
+     C17_example_shape, C17_local_hypotheses_satisfiable, C17_local_example_by_computation,
+     C17_monotonicity_needed_shape).
 *)
 From Coq Require Import String Ascii List Bool ZArith Lia Permutation.
 From Sismic Require Import Base Chart Interp.
@@ -220,6 +301,28 @@ Proof. apply nth_error_map. Qed.
 Lemma index_from_map {A B} (f : A -> B) i l :
   index_from i (map f l) = map (fun p => (fst p, f (snd p))) (index_from i l).
 Proof. revert i. induction l as [|x l IH]; intros i; cbn [map index_from fst snd]; auto. rewrite IH. reflexivity. Qed.
+
+(* operation sequences: queue(e) / execute_once() at clock value `now`.  An error leaves the
+   interpreter in the state reached so far (as a Python exception does) and the run goes on. *)
+Inductive op := OpQueue (e : event) | OpStep (now : Z).
+
+Section RunOps.
+  Variable ctx X : Type.
+  Variable exec_code : call ctx -> ctx -> option (ctx * list event).
+  Variable eval_code : call ctx -> ctx -> option bool.
+  Variable emit : Z -> meta -> X -> X * option err.
+  Variable sc : chart.
+  Variable fuel : nat.
+  Fixpoint run_ops (ops : list op) (s : mstate ctx X) : mstate ctx X * list (option macrostep + err) :=
+    match ops with
+    | [] => (s, [])
+    | OpQueue e :: r => run_ops r (fst (queue ctx X e s))
+    | OpStep now :: r =>
+        let o := execute_once ctx X exec_code eval_code emit sc fuel now s in
+        let rr := run_ops r (fst o) in
+        (fst rr, snd o :: snd rr)
+    end.
+End RunOps.
 
 (* ------------------------------------------------------------------------------------------ *)
 (* 3. Equivariance of the dictionary / set primitives and of the chart queries                 *)
@@ -588,4 +691,1389 @@ Section Equi.
   Lemma create_steps_rho cfg ev ts :
     create_steps sc' (map rho cfg) ev (map (map_it rho) ts) = map (map_micro rho) (create_steps sc cfg ev ts).
   Proof. unfold create_steps. rewrite !map_map. apply map_ext. intros it. apply create_step_rho. Qed.
+
+  (* ---- stabilisation steps ---- *)
+  Definition map_res (r : microstep + err) : microstep + err :=
+    match r with inl m => inl (map_micro rho m) | inr e => inr (map_err rho e) end.
+
+  Definition memN (m : list (name * list name)) : Prop := Forall (fun kv => Forall inN (snd kv)) m.
+
+  Lemma memN_lookup m k l : memN m -> lookup k m = Some l -> Forall inN l.
+  Proof.
+    intros Hm Hl. apply lookup_In in Hl. unfold memN in Hm. rewrite Forall_forall in Hm.
+    apply (Hm _ Hl).
+  Qed.
+
+  Lemma stab_for_leaf_rho mem_ leaf :
+    memN mem_ ->
+    stab_for_leaf sc' (map_kv rho (map rho) mem_) (rho leaf) = option_map map_res (stab_for_leaf sc mem_ leaf).
+  Proof.
+    intros Hm. unfold stab_for_leaf. rewrite state_for_rho.
+    destruct (state_for sc leaf) as [st|]; cbn [option_map]; [|reflexivity].
+    cbn [map_state s_kind s_initial s_memory]. destruct (s_kind st).
+    - reflexivity.
+    - rewrite truthy_rho. destruct (truthy (s_initial st)); reflexivity.
+    - rewrite children_for_rho. pose proof (children_inN leaf) as Hc.
+      destruct (children_for sc leaf) as [|n l]; cbn [map]; [reflexivity|].
+      change (rho n :: map rho l) with (map rho (n :: l)). rewrite sort_names_rho by exact Hc.
+      reflexivity.
+    - rewrite parent_for_rho, root_rho, ostr_eqb_rho.
+      destruct (ostr_eqb (parent_for sc leaf) (root sc)); [|reflexivity].
+      destruct (root sc); reflexivity.
+    - rewrite lookup_map_kv. destruct (lookup leaf mem_) as [l|] eqn:E; cbn [option_map].
+      + rewrite sort_enter_rho by (eapply memN_lookup; eauto). reflexivity.
+      + destruct (s_memory st); reflexivity.
+    - rewrite lookup_map_kv. destruct (lookup leaf mem_) as [l|] eqn:E; cbn [option_map].
+      + rewrite sort_enter_rho by (eapply memN_lookup; eauto). reflexivity.
+      + destruct (s_memory st); reflexivity.
+  Qed.
+
+  Lemma first_some_map {A B C D} (f : A -> option B) (f' : C -> option D) (h : A -> C) (g : B -> D) l :
+    (forall x, In x l -> f' (h x) = option_map g (f x)) ->
+    first_some f' (map h l) = option_map g (first_some f l).
+  Proof.
+    induction l as [|x l IH]; intros H; cbn [map first_some]; auto.
+    rewrite (H x (or_introl eq_refl)). destruct (f x); cbn [option_map]; auto.
+    apply IH. intros y Hy. apply H. right. exact Hy.
+  Qed.
+
+  Lemma stab_for_orthogonal_rho cfg n :
+    stab_for_orthogonal sc' (map rho cfg) (rho n) = option_map map_res (stab_for_orthogonal sc cfg n).
+  Proof.
+    unfold stab_for_orthogonal. rewrite state_for_rho.
+    destruct (state_for sc n) as [st|]; cbn [option_map]; [|reflexivity].
+    cbn [map_state s_kind]. destruct (s_kind st); try reflexivity.
+    rewrite children_for_rho.
+    rewrite (filter_map_eq rho (fun ch => negb (mem ch cfg)))
+      by (intros x _; rewrite mem_rho; reflexivity).
+    pose proof (Forall_filter (fun ch => negb (mem ch cfg)) inN _ (children_inN n)) as Hc.
+    destruct (filter (fun ch => negb (mem ch cfg)) (children_for sc n)) as [|a l]; cbn [map]; [reflexivity|].
+    change (rho a :: map rho l) with (map rho (a :: l)). rewrite sort_names_rho by exact Hc.
+    reflexivity.
+  Qed.
+
+  Definition closedi {ctx} (i : istate ctx) : Prop := Forall inN (i_config i) /\ memN (i_memory i).
+
+  Lemma create_stabilization_step_rho {ctx} (i : istate ctx) :
+    closedi i ->
+    create_stabilization_step ctx sc' (map_istate rho i) = option_map map_res (create_stabilization_step ctx sc i).
+  Proof.
+    intros [Hc Hm]. unfold create_stabilization_step. cbn [map_istate i_config i_memory].
+    rewrite leaf_for_rho.
+    change (leaf_order_leb sc') with (exit_order_leb sc').
+    change (leaf_order_leb sc) with (exit_order_leb sc).
+    rewrite sort_exit_rho by (unfold leaf_for; apply Forall_filter; exact Hc).
+    rewrite (first_some_map (stab_for_leaf sc (i_memory i)) _ rho map_res)
+      by (intros x _; apply stab_for_leaf_rho; exact Hm).
+    destruct (first_some (stab_for_leaf sc (i_memory i)) _); cbn [option_map]; [reflexivity|].
+    rewrite sort_enter_rho by exact Hc.
+    apply first_some_map. intros x _. apply stab_for_orthogonal_rho.
+  Qed.
+
+  Lemma queue_event_rho {ctx} (s : istate ctx) e :
+    queue_event (map_istate rho s) e = map_istate rho (queue_event s e).
+  Proof. unfold queue_event. destruct (e_kind e); reflexivity. Qed.
+
+  Lemma queue_event_closed {ctx} (s : istate ctx) e : closedi s -> closedi (queue_event s e).
+  Proof. unfold queue_event, closedi. destruct (e_kind e); cbn; auto. Qed.
+
+  Lemma select_event_rho {ctx} (s : istate ctx) : select_event (map_istate rho s) = select_event s.
+  Proof. reflexivity. Qed.
+
+  Lemma lookup_id k (d : list (name * Z)) : lookup (rho k) (map_kv rho (fun z : Z => z) d) = lookup k d.
+  Proof. rewrite lookup_map_kv. destruct (lookup k d); reflexivity. Qed.
+
+  Lemma mk_call_rho {ctx} (i : istate ctx) k o idx cd ev :
+    Forall inN (i_config i) ->
+    mk_call ctx sc' (map_istate rho i) k (map_owner rho o) idx cd ev
+    = map_call rho (mk_call ctx sc i k o idx cd ev).
+  Proof.
+    intros Hc. unfold mk_call. rewrite owner_state_rho.
+    cbn [map_istate i_id i_time i_config i_entry i_idle i_sent i_old].
+    rewrite sort_names_rho by exact Hc. rewrite old_lookup_rho.
+    unfold map_call.
+    cbn [cl_interp cl_kind cl_owner cl_idx cl_code cl_event cl_time cl_config cl_entry cl_idle cl_sent cl_old].
+    destruct (owner_state sc o) as [n|]; cbn [option_map]; rewrite ?lookup_id; reflexivity.
+  Qed.
+
+  (* ---------------------------------------------------------------------------------------- *)
+  (* 4. The monadic layer: a logical relation between the two runs                             *)
+  (* ---------------------------------------------------------------------------------------- *)
+  Variable ctx : Type.
+  Variables X X' : Type.
+  Variables exec_code exec_code' : call ctx -> ctx -> option (ctx * list event).
+  Variables eval_code eval_code' : call ctx -> ctx -> option bool.
+  Variable emit : Z -> meta -> X -> X * option err.
+  Variable emit' : Z -> meta -> X' -> X' * option err.
+  Variable fx : X -> X'.
+  (* the evaluator does not look at state names *)
+  Hypothesis exec_indep : forall c x, exec_code' (map_call rho c) x = exec_code c x.
+  Hypothesis eval_indep : forall c x, eval_code' (map_call rho c) x = eval_code c x.
+  (* the listeners are equivariant *)
+  Hypothesis emit_equi : forall t m x,
+      emit' t (map_meta rho m) (fx x)
+      = (fx (fst (emit t m x)), option_map (map_err rho) (snd (emit t m x))).
+
+  Notation mst := (mstate ctx X).
+  Notation mst' := (mstate ctx X').
+  Notation MM := (Interp.M ctx X).
+  Notation MM' := (Interp.M ctx X').
+
+  Definition map_mstate (s : mst) : mst' :=
+    mkM (map_istate rho (m_i s)) (fx (m_x s)) (map (map_obs rho) (m_tr s)).
+
+  Definition map_out {A} (fa : A -> A) (r : mst * (A + err)) : mst' * (A + err) :=
+    (map_mstate (fst r),
+     match snd r with inl a => inl (fa a) | inr e => inr (map_err rho e) end).
+
+  Definition closed (s : mst) : Prop := closedi (m_i s).
+
+  Definition EQV {A} (P : A -> Prop) (fa : A -> A) (m' : MM' A) (m : MM A) : Prop :=
+    forall s, closed s ->
+      m' (map_mstate s) = map_out fa (m s)
+      /\ closed (fst (m s))
+      /\ (forall a, snd (m s) = inl a -> P a).
+
+  Definition TT {A} (a : A) : Prop := True.
+  Definition idf {A} (a : A) : A := a.
+
+  Lemma eqv_ret {A} (P : A -> Prop) fa a : P a -> EQV P fa (ret ctx X' (fa a)) (ret ctx X a).
+  Proof.
+    intros Hp s Hc. unfold ret, map_out. cbn [fst snd].
+    split; [reflexivity|]. split; [exact Hc|]. intros a' H. inversion H; subst. exact Hp.
+  Qed.
+
+  Lemma eqv_fail {A} (P : A -> Prop) fa e : EQV P fa (fail ctx X' (map_err rho e)) (fail ctx X e).
+  Proof.
+    intros s Hc. unfold fail, map_out. cbn [fst snd].
+    split; [reflexivity|]. split; [exact Hc|]. intros a' H. discriminate.
+  Qed.
+
+  Lemma eqv_bind {A B} (P : A -> Prop) (Q : B -> Prop) fa fb (m' : MM' A) m (f' : A -> MM' B) f :
+    EQV P fa m' m -> (forall a, P a -> EQV Q fb (f' (fa a)) (f a)) ->
+    EQV Q fb (bind ctx X' m' f') (bind ctx X m f).
+  Proof.
+    intros Hm Hf s Hc. unfold bind. destruct (Hm s Hc) as [E [Hc1 HP]]. rewrite E.
+    unfold map_out at 1. destruct (m s) as [s1 [a|e]]; cbn [fst snd] in *.
+    - apply Hf; auto.
+    - unfold map_out. cbn [fst snd]. split; [reflexivity|]. split; [exact Hc1|]. intros a H. discriminate.
+  Qed.
+
+  Lemma eqv_weaken {A} (P Q : A -> Prop) fa (m' : MM' A) m :
+    EQV P fa m' m -> (forall a, P a -> Q a) -> EQV Q fa m' m.
+  Proof.
+    intros Hm HPQ s Hc. destruct (Hm s Hc) as [E [Hc1 HP]]. split; [exact E|]. split; [exact Hc1|].
+    intros a Ha. apply HPQ, HP, Ha.
+  Qed.
+
+  Lemma eqv_get_bind {B} (Q : B -> Prop) fb (f' : istate ctx -> MM' B) f :
+    (forall i, closedi i -> EQV Q fb (f' (map_istate rho i)) (f i)) ->
+    EQV Q fb (bind ctx X' (get ctx X') f') (bind ctx X (get ctx X) f).
+  Proof. intros H s Hc. unfold bind, get. cbn [map_mstate m_i]. apply (H (m_i s) Hc s Hc). Qed.
+
+  Lemma eqv_put i : closedi i -> EQV TT idf (put ctx X' (map_istate rho i)) (put ctx X i).
+  Proof.
+    intros Hi s Hc. unfold put, map_out. cbn [fst snd map_mstate m_i m_x m_tr].
+    split; [reflexivity|]. split; [exact Hi|]. intros; exact I.
+  Qed.
+
+  Lemma eqv_modify g' g :
+    (forall i, g' (map_istate rho i) = map_istate rho (g i)) ->
+    (forall i : istate ctx, closedi i -> closedi (g i)) ->
+    EQV TT idf (modify ctx X' g') (modify ctx X g).
+  Proof.
+    intros Hg Hcl s Hc. unfold modify, map_out. cbn [fst snd map_mstate m_i m_x m_tr].
+    rewrite Hg. split; [reflexivity|]. split; [apply Hcl, Hc|]. intros; exact I.
+  Qed.
+
+  Lemma eqv_observe o : EQV TT idf (observe ctx X' (map_obs rho o)) (observe ctx X o).
+  Proof.
+    intros s Hc. unfold observe, map_out. cbn [fst snd map_mstate m_i m_x m_tr map].
+    split; [reflexivity|]. split; [exact Hc|]. intros; exact I.
+  Qed.
+
+  Lemma eqv_mapM {A B} (PA : A -> Prop) (PB : B -> Prop) ha fb (f' : A -> MM' B) f l :
+    (forall x, PA x -> EQV PB fb (f' (ha x)) (f x)) -> Forall PA l ->
+    EQV (Forall PB) (map fb) (mapM ctx X' f' (map ha l)) (mapM ctx X f l).
+  Proof.
+    intros H Hl. induction Hl as [|x l Hx Hl IH]; cbn [mapM map].
+    - apply (eqv_ret (Forall PB) (map fb) []). constructor.
+    - eapply eqv_bind; [apply H, Hx|]. intros y Hy.
+      eapply eqv_bind; [apply IH|]. intros ys Hys.
+      apply (eqv_ret (Forall PB) (map fb) (y :: ys)). constructor; auto.
+  Qed.
+
+  Lemma eqv_iterM {A} (PA : A -> Prop) ha (f' : A -> MM' unit) f l :
+    (forall x, PA x -> EQV TT idf (f' (ha x)) (f x)) -> Forall PA l ->
+    EQV TT idf (iterM ctx X' f' (map ha l)) (iterM ctx X f l).
+  Proof.
+    intros H Hl. induction Hl as [|x l Hx Hl IH]; cbn [iterM map].
+    - apply (eqv_ret TT idf tt). exact I.
+    - eapply eqv_bind; [apply H, Hx|]. intros _ _. exact IH.
+  Qed.
+
+  (* ---- listeners ---- *)
+  Lemma raise_meta_eqv m :
+    EQV TT idf (raise_meta ctx X' emit' (map_meta rho m)) (raise_meta ctx X emit m).
+  Proof.
+    intros s Hc. unfold raise_meta. cbn [map_mstate m_i m_x m_tr map_istate i_time].
+    rewrite emit_equi. unfold map_out.
+    destruct (emit (i_time (m_i s)) m (m_x s)) as [x' [e|]]; cbn [fst snd option_map];
+      (split; [reflexivity|]; split; [exact Hc|]; intros; exact I).
+  Qed.
+
+  Lemma raise_event_eqv e :
+    EQV TT idf (raise_event ctx X' emit' e) (raise_event ctx X emit e).
+  Proof.
+    unfold raise_event. destruct (e_kind e).
+    - apply (eqv_ret TT idf tt). exact I.
+    - eapply eqv_bind.
+      + apply eqv_modify; [intros i; apply queue_event_rho|intros i; apply queue_event_closed].
+      + intros _ _. eapply eqv_bind; [apply (raise_meta_eqv (MSent e))|]. intros _ _.
+        destruct (has_delay e); [apply (raise_meta_eqv (MDelayedSent e))|apply (eqv_ret TT idf tt); exact I].
+    - apply (raise_meta_eqv (MUser (e_name e) (e_data e))).
+  Qed.
+
+  (* ---- evaluator calls ---- *)
+  Lemma run_code_eqv k o cd ev :
+    EQV TT idf (run_code ctx X' exec_code' sc' k (map_owner rho o) cd ev)
+               (run_code ctx X exec_code sc k o cd ev).
+  Proof.
+    unfold run_code. apply eqv_get_bind. intros i Hi.
+    rewrite mk_call_rho by apply Hi. cbn [map_istate i_ctx]. rewrite exec_indep.
+    destruct cd as [cd|].
+    - destruct (exec_code (mk_call ctx sc i k o 0 (Some cd) ev) (i_ctx i)) as [[c' sent]|].
+      + eapply eqv_bind; [apply (eqv_observe (ObExec _ (Some sent)))|]. intros _ _.
+        eapply eqv_bind; [apply (eqv_put (set_ctx ctx c' i)); exact Hi|]. intros _ _.
+        apply (eqv_ret TT idf sent). exact I.
+      + eapply eqv_bind; [apply (eqv_observe (ObExec _ None))|]. intros _ _.
+        apply (eqv_fail TT idf (ECode k o 0)).
+    - eapply eqv_bind; [apply (eqv_observe (ObExec _ (Some [])))|]. intros _ _.
+      apply (eqv_ret TT idf []). exact I.
+  Qed.
+
+  Lemma eval_cond_eqv k o idx cd ev :
+    EQV TT idf (eval_cond ctx X' eval_code' sc' k (map_owner rho o) idx cd ev)
+               (eval_cond ctx X eval_code sc k o idx cd ev).
+  Proof.
+    unfold eval_cond. apply eqv_get_bind. intros i Hi.
+    rewrite mk_call_rho by apply Hi. cbn [map_istate i_ctx]. rewrite eval_indep.
+    destruct (eval_code (mk_call ctx sc i k o idx (Some cd) ev) (i_ctx i)) as [b|].
+    - eapply eqv_bind; [apply (eqv_observe (ObEval _ (Some b)))|]. intros _ _.
+      apply (eqv_ret TT idf b). exact I.
+    - eapply eqv_bind; [apply (eqv_observe (ObEval _ None))|]. intros _ _.
+      apply (eqv_fail TT idf (ECode k o idx)).
+  Qed.
+
+  Lemma eqv_ret_tt : EQV TT idf (ret ctx X' tt) (ret ctx X tt).
+  Proof. apply (eqv_ret TT idf tt). exact I. Qed.
+
+  Lemma eval_conds_eqv k o cds ev : forall idx,
+    EQV TT idf (eval_conds ctx X' eval_code' sc' k (map_owner rho o) idx cds ev)
+               (eval_conds ctx X eval_code sc k o idx cds ev).
+  Proof.
+    induction cds as [|cd cds IH]; intros idx; cbn [eval_conds].
+    - apply eqv_ret_tt.
+    - eapply eqv_bind; [apply eval_cond_eqv|]. intros b _. unfold idf.
+      destruct b; [apply IH|apply (eqv_fail TT idf (EContract k o idx))].
+  Qed.
+
+  Lemma set_old_rho (i : istate ctx) o :
+    set_old ctx (old_set (map_owner rho o) (i_ctx (map_istate rho i)) (i_old (map_istate rho i))) (map_istate rho i)
+    = map_istate rho (set_old ctx (old_set o (i_ctx i) (i_old i)) i).
+  Proof.
+    unfold set_old, map_istate.
+    cbn [i_id i_initialized i_time i_memory i_config i_entry i_idle i_sent i_iq i_eq i_ignore_contract i_ctx i_old].
+    rewrite old_set_rho. reflexivity.
+  Qed.
+
+  Lemma contract_eqv k o pre post inv ev :
+    EQV TT idf (contract ctx X' eval_code' sc' k (map_owner rho o) pre post inv ev)
+               (contract ctx X eval_code sc k o pre post inv ev).
+  Proof.
+    unfold contract. apply eqv_get_bind. intros i Hi. cbn [map_istate i_ignore_contract].
+    destruct (i_ignore_contract i); [apply eqv_ret_tt|].
+    destruct k; try apply eqv_ret_tt; try apply eval_conds_eqv.
+    eapply eqv_bind; [|intros _ _; apply eval_conds_eqv].
+    assert (Hm : EQV TT idf
+               (modify ctx X' (fun s => set_old ctx (old_set (map_owner rho o) (i_ctx s) (i_old s)) s))
+               (modify ctx X (fun s => set_old ctx (old_set o (i_ctx s) (i_old s)) s))).
+    { apply eqv_modify; [intros j; apply set_old_rho|intros j Hj; exact Hj]. }
+    destruct inv, post; try apply eqv_ret_tt; exact Hm.
+  Qed.
+
+  Lemma state_contract_eqv k st ev :
+    EQV TT idf (state_contract ctx X' eval_code' sc' k (map_state rho st) ev)
+               (state_contract ctx X eval_code sc k st ev).
+  Proof.
+    unfold state_contract. cbn [map_state s_name s_pre s_post s_inv].
+    apply (contract_eqv k (OState (s_name st))).
+  Qed.
+
+  Lemma trans_contract_eqv k it ev :
+    EQV TT idf (trans_contract ctx X' eval_code' sc' k (map_it rho it) ev)
+               (trans_contract ctx X eval_code sc k it ev).
+  Proof.
+    unfold trans_contract. cbn [map_it fst snd map_trans t_pre t_post t_inv].
+    apply (contract_eqv k (OTrans (fst it))).
+  Qed.
+
+  (* ---- _select_transitions ---- *)
+  Notation mits := (map (map_it rho)).
+  Definition srcsN (ts : list itrans) : Prop := Forall srcN ts.
+
+  Lemma eval_guards_eqv exposed ts :
+    srcsN ts ->
+    EQV srcsN mits (eval_guards ctx X' eval_code' sc' exposed (mits ts))
+                   (eval_guards ctx X eval_code sc exposed ts).
+  Proof.
+    intros Hts. induction Hts as [|it ts Hit Hts IH]; cbn [eval_guards map].
+    - apply (eqv_ret srcsN mits []). constructor.
+    - eapply (eqv_bind TT srcsN idf).
+      + cbn [map_it snd fst map_trans t_guard]. destruct (t_guard (snd it)) as [g|].
+        * apply (eval_cond_eqv CGuard (OTrans (fst it))).
+        * apply (eqv_ret TT idf true). exact I.
+      + intros ok _. eapply eqv_bind; [apply IH|]. intros r Hr. unfold idf.
+        destruct ok.
+        * apply (eqv_ret srcsN mits (it :: r)). constructor; auto.
+        * apply (eqv_ret srcsN mits r). exact Hr.
+  Qed.
+
+  Definition zgroups (gs : list (Z * list itrans)) := map (fun p => (fst p, mits (snd p))) gs.
+  Definition groupsN {K} (gs : list (K * list itrans)) : Prop := Forall (fun p => srcsN (snd p)) gs.
+
+  Lemma sel_priorities_eqv exposed gs :
+    groupsN gs ->
+    EQV srcsN mits (sel_priorities ctx X' eval_code' sc' exposed (zgroups gs))
+                   (sel_priorities ctx X eval_code sc exposed gs).
+  Proof.
+    intros Hg. induction Hg as [|[z ts] gs Hts Hg IH]; cbn [sel_priorities zgroups map fst snd].
+    - apply (eqv_ret srcsN mits []). constructor.
+    - eapply eqv_bind; [apply eval_guards_eqv; exact Hts|]. intros r Hr.
+      destruct r as [|a r]; cbn [map]; [exact IH|].
+      apply (eqv_ret srcsN mits (a :: r)). exact Hr.
+  Qed.
+
+  (* groups produced by sorted_groupby only contain elements of the list *)
+  Lemma group_add_Fsnd {A K} (keqb : K -> K -> bool) (P : A -> Prop) k v g :
+    P v -> Forall (fun p => Forall P (snd p)) g -> Forall (fun p => Forall P (snd p)) (group_add keqb k v g).
+  Proof.
+    intros Hv Hg. induction Hg as [|[k' vs] g Hp Hg IH]; cbn [group_add].
+    - constructor; [|constructor]. cbn. constructor; auto.
+    - destruct (keqb k k'); constructor; auto. cbn [snd] in *. apply Forall_app. split; auto.
+  Qed.
+
+  Lemma sorted_groupby_Fsnd {A K} (key : A -> K) keqb kleb rev (P : A -> Prop) l :
+    Forall P l -> Forall (fun p => Forall P (snd p)) (sorted_groupby key keqb kleb rev l).
+  Proof.
+    intros Hl. unfold sorted_groupby. apply Forall_sort. unfold groups_of.
+    assert (G : forall acc, Forall (fun p => Forall P (snd p)) acc ->
+                Forall (fun p => Forall P (snd p)) (fold_left (fun g v => group_add keqb (key v) v g) l acc)).
+    { induction Hl as [|x l Hx Hl IH]; intros acc Hacc; cbn [fold_left]; auto.
+      apply IH. apply group_add_Fsnd; auto. }
+    apply G. constructor.
+  Qed.
+
+  Definition ngroups (gs : list (name * list itrans)) := map (fun p => (rho (fst p), mits (snd p))) gs.
+  Definition map_sel (r : list itrans * list name) := (mits (fst r), map rho (snd r)).
+  Definition selN (r : list itrans * list name) : Prop := srcsN (fst r).
+
+  Lemma priority_groups_rho ts :
+    sorted_groupby (fun it : itrans => t_priority (snd it)) Z.eqb Z.leb true (mits ts)
+    = zgroups (sorted_groupby (fun it : itrans => t_priority (snd it)) Z.eqb Z.leb true ts).
+  Proof.
+    apply (sorted_groupby_map (map_it rho) (fun z : Z => z) _ _ Z.eqb Z.eqb Z.leb Z.leb (fun _ => True)); auto.
+    apply Forall_forall. auto.
+  Qed.
+
+  Lemma sel_sources_eqv exposed gs : forall selected ignored,
+    groupsN gs -> srcsN selected ->
+    EQV selN map_sel
+        (sel_sources ctx X' eval_code' sc' exposed (ngroups gs) (mits selected) (map rho ignored))
+        (sel_sources ctx X eval_code sc exposed gs selected ignored).
+  Proof.
+    intros selected ignored Hg. revert selected ignored.
+    induction Hg as [|[src ts] gs Hts Hg IH]; intros selected ignored Hsel;
+      cbn [sel_sources ngroups map fst snd].
+    - apply (eqv_ret selN map_sel (selected, ignored)). exact Hsel.
+    - rewrite mem_rho. destruct (mem src ignored); [apply IH; exact Hsel|].
+      rewrite priority_groups_rho.
+      eapply eqv_bind; [apply sel_priorities_eqv; apply sorted_groupby_Fsnd; exact Hts|].
+      intros r Hr. destruct r as [|a r]; cbn [map]; [apply IH; exact Hsel|].
+      change (map_it rho a :: mits r) with (mits (a :: r)).
+      rewrite <- map_app. rewrite ancestors_for_rho.
+      change [rho src] with (map rho [src]). rewrite <- !map_app.
+      apply IH. apply Forall_app. split; auto.
+  Qed.
+
+  Lemma source_groups_rho ts :
+    srcsN ts ->
+    sorted_groupby (fun it : itrans => t_source (snd it)) str_eqb str_leb false (mits ts)
+    = ngroups (sorted_groupby (fun it : itrans => t_source (snd it)) str_eqb str_leb false ts).
+  Proof.
+    intros H.
+    apply (sorted_groupby_map (map_it rho) rho _ _ str_eqb str_eqb str_leb str_leb inN); auto.
+    - intros a b. apply str_eqb_rho.
+  Qed.
+
+  Lemma sel_depths_eqv exposed gs : forall selected ignored,
+    groupsN gs -> srcsN selected ->
+    EQV selN map_sel
+        (sel_depths ctx X' eval_code' sc' exposed (zgroups gs) (mits selected) (map rho ignored))
+        (sel_depths ctx X eval_code sc exposed gs selected ignored).
+  Proof.
+    intros selected ignored Hg. revert selected ignored.
+    induction Hg as [|[d ts] gs Hts Hg IH]; intros selected ignored Hsel;
+      cbn [sel_depths zgroups map fst snd].
+    - apply (eqv_ret selN map_sel (selected, ignored)). exact Hsel.
+    - cbn [snd] in Hts. rewrite source_groups_rho by exact Hts.
+      eapply eqv_bind; [apply sel_sources_eqv; [apply sorted_groupby_Fsnd; exact Hts|exact Hsel]|].
+      intros r Hr. cbn [map_sel fst snd]. apply IH. exact Hr.
+  Qed.
+
+  Lemma depth_groups_rho ts :
+    sorted_groupby (fun it : itrans => depth_for sc' (t_source (snd it))) Z.eqb Z.leb true (mits ts)
+    = zgroups (sorted_groupby (fun it : itrans => depth_for sc (t_source (snd it))) Z.eqb Z.leb true ts).
+  Proof.
+    apply (sorted_groupby_map (map_it rho) (fun z : Z => z) _ _ Z.eqb Z.eqb Z.leb Z.leb (fun _ => True)); auto.
+    - intros it. cbn [map_it snd map_trans t_source]. apply depth_for_rho.
+    - apply Forall_forall. auto.
+  Qed.
+
+  Definition bgroups (gs : list (bool * list itrans)) := map (fun p => (fst p, mits (snd p))) gs.
+
+  Lemma sel_eventness_eqv event gs : forall selected,
+    groupsN gs -> srcsN selected ->
+    EQV srcsN mits
+        (sel_eventness ctx X' eval_code' sc' event (bgroups gs) (mits selected))
+        (sel_eventness ctx X eval_code sc event gs selected).
+  Proof.
+    intros selected Hg. revert selected.
+    induction Hg as [|[b ts] gs Hts Hg IH]; intros selected Hsel;
+      cbn [sel_eventness bgroups map fst snd].
+    - apply (eqv_ret srcsN mits selected). exact Hsel.
+    - destruct selected as [|a sel]; cbn [map].
+      + rewrite depth_groups_rho.
+        eapply eqv_bind.
+        * apply (sel_depths_eqv _ _ [] []); [apply sorted_groupby_Fsnd; exact Hts|constructor].
+        * intros r Hr. cbn [map_sel fst]. apply IH. exact Hr.
+      + apply (eqv_ret srcsN mits (a :: sel)). exact Hsel.
+  Qed.
+
+  Lemma eventness_groups_rho l :
+    sorted_groupby has_event_key Bool.eqb bool_leb false (mits l)
+    = bgroups (sorted_groupby has_event_key Bool.eqb bool_leb false l).
+  Proof.
+    apply (sorted_groupby_map (map_it rho) (fun b : bool => b) _ _ Bool.eqb Bool.eqb bool_leb bool_leb (fun _ => True)); auto.
+    apply Forall_forall. auto.
+  Qed.
+
+  Lemma considered_srcsN ev states : srcsN (considered sc ev states).
+  Proof.
+    apply Forall_forall. intros it H. apply source_inN.
+    pose proof (considered_sub ev states) as Hs. rewrite Forall_forall in Hs. auto.
+  Qed.
+
+  Lemma select_transitions_eqv event states :
+    EQV srcsN mits
+        (select_transitions ctx X' eval_code' sc' event (map rho states))
+        (select_transitions ctx X eval_code sc event states).
+  Proof.
+    unfold select_transitions. rewrite considered_rho, eventness_groups_rho.
+    apply (sel_eventness_eqv event _ []); [|constructor].
+    apply sorted_groupby_Fsnd. apply considered_srcsN.
+  Qed.
+
+  (* ---- _sort_transitions ---- *)
+  Lemma check_pair_err t1 t2 e : check_pair sc t1 t2 = Some e -> map_err rho e = e.
+  Proof.
+    unfold check_pair. destruct (str_eqb _ _); [intros H; inversion H; reflexivity|].
+    destruct (least_common_ancestor _ _ _) as [l|]; [|intros H; inversion H; reflexivity].
+    destruct (kind_of sc l) as [[]|]; try (intros H; inversion H; reflexivity).
+    destruct (_ && _); intros H; inversion H; reflexivity.
+  Qed.
+
+  Lemma check_against_err t1 rest e : check_against sc t1 rest = Some e -> map_err rho e = e.
+  Proof.
+    induction rest as [|it rest IH]; cbn [check_against]; [discriminate|].
+    destruct (check_pair sc t1 (snd it)) as [e'|] eqn:E; [|exact IH].
+    intros H; inversion H; subst. eapply check_pair_err; eauto.
+  Qed.
+
+  Lemma check_pairs_err ts e : check_pairs sc ts = Some e -> map_err rho e = e.
+  Proof.
+    induction ts as [|it ts IH]; cbn [check_pairs]; [discriminate|].
+    destruct (check_against sc (snd it) ts) as [e'|] eqn:E; [|exact IH].
+    intros H; inversion H; subst. eapply check_against_err; eauto.
+  Qed.
+
+  Lemma sort_transitions_eqv ts :
+    srcsN ts ->
+    EQV srcsN mits (sort_transitions ctx X' sc' (mits ts)) (sort_transitions ctx X sc ts).
+  Proof.
+    intros Hts. unfold sort_transitions.
+    destruct ts as [|a [|b ts]]; cbn [map].
+    - apply (eqv_ret srcsN mits []). constructor.
+    - apply (eqv_ret srcsN mits [a]). exact Hts.
+    - change (map_it rho a :: map_it rho b :: mits ts) with (mits (a :: b :: ts)).
+      rewrite check_pairs_rho.
+      destruct (check_pairs sc (a :: b :: ts)) as [e|] eqn:E.
+      + pose proof (eqv_fail srcsN mits e) as Hf. rewrite (check_pairs_err _ _ E) in Hf. exact Hf.
+      + rewrite sort_trans_rho by exact Hts.
+        apply (eqv_ret srcsN mits (sort (trans_order_leb sc) (a :: b :: ts))).
+        apply Forall_sort. exact Hts.
+  Qed.
+
+  (* ---- _compute_steps ---- *)
+  Notation mmicros := (map (map_micro rho)).
+
+  Lemma compute_steps_eqv :
+    EQV TT mmicros (compute_steps ctx X' eval_code' sc') (compute_steps ctx X eval_code sc).
+  Proof.
+    unfold compute_steps. apply eqv_get_bind. intros i Hi.
+    cbn [map_istate i_initialized]. destruct (negb (i_initialized i)).
+    - eapply eqv_bind; [apply (eqv_put (set_initialized ctx true i)); exact Hi|]. intros _ _.
+      rewrite root_rho. destruct (root sc) as [r|]; cbn [option_map].
+      + apply (eqv_ret TT mmicros [mkMicro None None [r] [] []]). exact I.
+      + apply (eqv_fail TT mmicros EStatechart).
+    - change (select_event (map_istate rho i)) with (select_event i).
+      change (i_config (map_istate rho i)) with (map rho (i_config i)).
+      eapply eqv_bind; [apply select_transitions_eqv|]. intros ts Hts.
+      eapply (eqv_bind TT TT idf).
+      + replace (map fst (mits ts)) with (map fst ts)
+          by (rewrite map_map; apply map_ext; intros it; reflexivity).
+        apply (eqv_observe (ObSelected (map fst ts))).
+      + intros _ _. destruct ts as [|t0 ts0]; cbn [map].
+        * destruct (select_event i) as [e|].
+          -- apply (eqv_ret TT mmicros [mkMicro (Some e) None [] [] []]). exact I.
+          -- apply (eqv_ret TT mmicros []). exact I.
+        * change (map_it rho t0 :: mits ts0) with (mits (t0 :: ts0)).
+          eapply eqv_bind; [apply sort_transitions_eqv; exact Hts|]. intros ts' Hts'.
+          apply eqv_get_bind. intros i2 Hi2.
+          change (i_config (map_istate rho i2)) with (map rho (i_config i2)).
+          rewrite create_steps_rho.
+          assert (Eev : match mits ts' with
+                        | it :: _ => match t_event (snd it) with None => None | Some _ => select_event i end
+                        | [] => select_event i end
+                        = match ts' with
+                          | it :: _ => match t_event (snd it) with None => None | Some _ => select_event i end
+                          | [] => select_event i end).
+          { destruct ts' as [|it ts']; reflexivity. }
+          rewrite Eev. apply eqv_ret. exact I.
+  Qed.
+
+  (* ---- _apply_step ---- *)
+  Lemma eqv_iterM_same {A} (f' : A -> MM' unit) f l :
+    (forall x, EQV TT idf (f' x) (f x)) -> EQV TT idf (iterM ctx X' f' l) (iterM ctx X f l).
+  Proof.
+    intros H. induction l as [|x l IH]; cbn [iterM]; [apply eqv_ret_tt|].
+    eapply eqv_bind; [apply H|]. intros _ _. exact IH.
+  Qed.
+
+  Lemma map_idf {A} (l : list A) : map idf l = l.
+  Proof. unfold idf. apply map_id. Qed.
+
+  Lemma memN_dset m k v : memN m -> Forall inN v -> memN (dset k v m).
+  Proof.
+    intros Hm Hv. induction Hm as [|[k' v'] m Hp Hm IH]; cbn [dset].
+    - constructor; [exact Hv|constructor].
+    - destruct (str_eqb k k'); constructor; auto.
+  Qed.
+
+  Lemma set_memory_dset_rho (i : istate ctx) child v :
+    set_memory ctx (dset (rho child) (map rho v) (i_memory (map_istate rho i))) (map_istate rho i)
+    = map_istate rho (set_memory ctx (dset child v (i_memory i)) i).
+  Proof.
+    unfold set_memory, map_istate.
+    cbn [i_id i_initialized i_time i_memory i_config i_entry i_idle i_sent i_iq i_eq i_ignore_contract i_ctx i_old].
+    rewrite dset_map_kv. reflexivity.
+  Qed.
+
+  Lemma modify_memory_eqv child v :
+    Forall inN v ->
+    EQV TT idf
+        (modify ctx X' (fun s => set_memory ctx (dset (rho child) (map rho v) (i_memory s)) s))
+        (modify ctx X (fun s => set_memory ctx (dset child v (i_memory s)) s)).
+  Proof.
+    intros Hv. apply eqv_modify.
+    - intros i. apply set_memory_dset_rho.
+    - intros i [Hc Hm]. split; [exact Hc|]. cbn [set_memory i_memory]. apply memN_dset; auto.
+  Qed.
+
+  Lemma record_history_eqv active st :
+    Forall inN active ->
+    EQV TT idf (record_history ctx X' sc' (map rho active) (map_state rho st))
+               (record_history ctx X sc active st).
+  Proof.
+    intros Hact. unfold record_history. cbn [map_state s_kind s_name].
+    destruct (s_kind st); try apply eqv_ret_tt.
+    rewrite !children_for_rho.
+    apply (eqv_iterM (fun _ => True) rho); [|apply Forall_forall; auto].
+    intros child _. rewrite state_for_rho.
+    destruct (state_for sc child) as [cs|]; cbn [option_map]; [|apply (eqv_fail TT idf EStatechart)].
+    cbn [map_state s_kind]. destruct (s_kind cs); try apply eqv_ret_tt.
+    - rewrite (filter_map_eq rho (fun n => mem n (children_for sc (s_name st))))
+        by (intros x _; apply mem_rho).
+      destruct (filter (fun n => mem n (children_for sc (s_name st))) active) as [|a [|b l]] eqn:E;
+        cbn [map]; try apply (eqv_fail TT idf EAssert).
+      apply (modify_memory_eqv child [a]). rewrite <- E. apply Forall_filter. exact Hact.
+    - rewrite descendants_for_rho.
+      rewrite (filter_map_eq rho (fun n => mem n (descendants_for sc (s_name st))))
+        by (intros x _; apply mem_rho).
+      pose proof (Forall_filter (fun n => mem n (descendants_for sc (s_name st))) inN _ Hact) as Hf.
+      destruct (filter (fun n => mem n (descendants_for sc (s_name st))) active) as [|a l];
+        cbn [map]; [apply (eqv_fail TT idf EAssert)|].
+      change (rho a :: map rho l) with (map rho (a :: l)).
+      rewrite sort_names_rho by exact Hf.
+      apply modify_memory_eqv. unfold sort_names. apply Forall_sort. exact Hf.
+  Qed.
+
+  Lemma Forall_remove_first (P : name -> Prop) x l : Forall P l -> Forall P (remove_first x l).
+  Proof.
+    induction 1 as [|y l Hy Hl IH]; cbn [remove_first]; [constructor|].
+    destruct (str_eqb x y); auto.
+  Qed.
+
+  Lemma set_config_rho (i : istate ctx) l :
+    set_config ctx (map rho l) (map_istate rho i) = map_istate rho (set_config ctx l i).
+  Proof. reflexivity. Qed.
+
+  Lemma exit_state_eqv active ev st :
+    Forall inN active ->
+    EQV TT idf (exit_state ctx X' exec_code' eval_code' emit' sc' (map rho active) ev (map_state rho st))
+               (exit_state ctx X exec_code eval_code emit sc active ev st).
+  Proof.
+    intros Hact. unfold exit_state.
+    change (s_name (map_state rho st)) with (rho (s_name st)).
+    change (s_on_exit (map_state rho st)) with (s_on_exit st).
+    eapply eqv_bind; [apply (run_code_eqv CExit (OState (s_name st)))|]. intros sent _.
+    eapply eqv_bind; [apply record_history_eqv; exact Hact|]. intros _ _.
+    apply eqv_get_bind. intros i Hi.
+    change (i_config (map_istate rho i)) with (map rho (i_config i)).
+    eapply (eqv_bind TT TT idf).
+    { rewrite mem_rho. destruct (mem (s_name st) (i_config i)).
+      - rewrite remove_first_rho, set_config_rho. apply eqv_put.
+        destruct Hi as [Hc Hm]. split; [|exact Hm]. cbn [set_config i_config].
+        apply Forall_remove_first. exact Hc.
+      - apply (eqv_fail TT idf EKey). }
+    intros _ _. eapply eqv_bind; [apply state_contract_eqv|]. intros _ _.
+    eapply eqv_bind; [apply (raise_meta_eqv (MExited (s_name st)))|]. intros _ _.
+    apply (eqv_ret TT idf sent). exact I.
+  Qed.
+
+  Lemma dset_id k (v : Z) d :
+    dset (rho k) v (map_kv rho (fun z : Z => z) d) = map_kv rho (fun z : Z => z) (dset k v d).
+  Proof. exact (dset_map_kv (fun z : Z => z) k v d). Qed.
+
+  Lemma Forall_set_add (P : name -> Prop) x l : P x -> Forall P l -> Forall P (set_add x l).
+  Proof.
+    intros Hx Hl. unfold set_add. destruct (mem x l); auto. apply Forall_app. split; auto.
+  Qed.
+
+  Lemma enter_state_eqv ev st :
+    inN (s_name st) ->
+    EQV TT idf (enter_state ctx X' exec_code' eval_code' emit' sc' ev (map_state rho st))
+               (enter_state ctx X exec_code eval_code emit sc ev st).
+  Proof.
+    intros Hn. unfold enter_state.
+    change (s_name (map_state rho st)) with (rho (s_name st)).
+    change (s_on_entry (map_state rho st)) with (s_on_entry st).
+    eapply eqv_bind; [apply state_contract_eqv|]. intros _ _.
+    eapply eqv_bind; [apply (run_code_eqv CEntry (OState (s_name st)))|]. intros sent _.
+    eapply (eqv_bind TT TT idf).
+    { apply eqv_modify.
+      - intros i. unfold set_idle, set_entry, set_config, map_istate.
+        cbn [i_id i_initialized i_time i_memory i_config i_entry i_idle i_sent i_iq i_eq i_ignore_contract i_ctx i_old].
+        rewrite set_add_rho, !dset_id. reflexivity.
+      - intros i [Hc Hm]. split; [|exact Hm]. cbn [set_idle set_entry set_config i_config].
+        apply Forall_set_add; auto. }
+    intros _ _. eapply eqv_bind; [apply (raise_meta_eqv (MEntered (s_name st)))|]. intros _ _.
+    apply (eqv_ret TT idf sent). exact I.
+  Qed.
+
+  Lemma process_transition_eqv ev i :
+    EQV TT idf (process_transition ctx X' exec_code' eval_code' emit' sc' ev i)
+               (process_transition ctx X exec_code eval_code emit sc ev i).
+  Proof.
+    unfold process_transition. cbn [map_chart c_transitions]. rewrite nth_error_map.
+    destruct (nth_error (c_transitions sc) i) as [t|]; cbn [option_map];
+      [|apply (eqv_fail TT idf EStatechart)].
+    change (i, map_trans rho t) with (map_it rho (i, t)).
+    eapply eqv_bind; [apply trans_contract_eqv|]. intros _ _.
+    eapply eqv_bind; [apply trans_contract_eqv|]. intros _ _.
+    change (t_action (map_trans rho t)) with (t_action t).
+    eapply eqv_bind; [apply (run_code_eqv CAction (OTrans i))|]. intros sent _.
+    eapply eqv_bind; [apply trans_contract_eqv|]. intros _ _.
+    eapply eqv_bind; [apply trans_contract_eqv|]. intros _ _.
+    eapply (eqv_bind TT TT idf).
+    { apply eqv_modify.
+      - intros j. unfold set_idle, map_istate.
+        cbn [i_id i_initialized i_time i_memory i_config i_entry i_idle i_sent i_iq i_eq i_ignore_contract i_ctx i_old].
+        change (t_source (map_trans rho t)) with (rho (t_source t)).
+        rewrite dset_id. reflexivity.
+      - intros j Hj. exact Hj. }
+    intros _ _.
+    eapply eqv_bind; [apply (raise_meta_eqv (MProcessed (t_source t) (t_target t) ev))|]. intros _ _.
+    apply (eqv_ret TT idf sent). exact I.
+  Qed.
+
+  Lemma apply_step_eqv step :
+    EQV TT (map_micro rho)
+        (apply_step ctx X' exec_code' eval_code' emit' sc' (map_micro rho step))
+        (apply_step ctx X exec_code eval_code emit sc step).
+  Proof.
+    unfold apply_step. cbn [map_micro ms_entered ms_exited ms_event ms_trans].
+    rewrite !states_for_rho.
+    destruct (states_for sc (ms_entered step)) as [entered|] eqn:Een; cbn [option_map];
+      [|apply (eqv_fail TT (map_micro rho) EStatechart)].
+    destruct (states_for sc (ms_exited step)) as [exited|] eqn:Eex; cbn [option_map];
+      [|apply (eqv_fail TT (map_micro rho) EStatechart)].
+    apply eqv_get_bind. intros i0 Hi0.
+    change (i_config (map_istate rho i0)) with (map rho (i_config i0)).
+    eapply eqv_bind.
+    { apply (eqv_mapM (fun _ => True) TT (map_state rho) idf).
+      - intros st _. apply exit_state_eqv. apply Hi0.
+      - apply Forall_forall. auto. }
+    intros sent1 _. rewrite map_idf.
+    eapply (eqv_bind TT TT idf).
+    { destruct (ms_trans step) as [i|]; [apply process_transition_eqv|].
+      apply (eqv_ret TT idf []). exact I. }
+    intros sent2 _. unfold idf at 1.
+    eapply eqv_bind.
+    { apply (eqv_mapM (fun st => inN (s_name st)) TT (map_state rho) idf).
+      - intros st Hst. apply enter_state_eqv. exact Hst.
+      - eapply states_for_inN. exact Een. }
+    intros sent3 _. rewrite map_idf.
+    eapply eqv_bind.
+    { apply eqv_iterM_same. intros e.
+      eapply eqv_bind; [apply raise_event_eqv|]. intros _ _.
+      apply eqv_modify; [intros j; reflexivity|intros j Hj; exact Hj]. }
+    intros _ _.
+    apply (eqv_ret TT (map_micro rho)
+             (mkMicro (ms_event step) (ms_trans step) (ms_entered step) (ms_exited step)
+                      (concat sent1 ++ sent2 ++ concat sent3))).
+    exact I.
+  Qed.
+
+  (* ---- _stabilize, run ---- *)
+
+  Lemma stabilize_eqv fuel :
+    EQV TT mmicros (stabilize ctx X' exec_code' eval_code' emit' sc' fuel)
+                   (stabilize ctx X exec_code eval_code emit sc fuel).
+  Proof.
+    induction fuel as [|f IH]; cbn [stabilize]; [apply (eqv_fail TT mmicros EFuel)|].
+    apply eqv_get_bind. intros i Hi. rewrite create_stabilization_step_rho by exact Hi.
+    destruct (create_stabilization_step ctx sc i) as [[step|e]|]; cbn [option_map map_res].
+    - eapply eqv_bind; [apply apply_step_eqv|]. intros a _.
+      eapply eqv_bind; [apply IH|]. intros r _.
+      apply (eqv_ret TT mmicros (a :: r)). exact I.
+    - apply (eqv_fail TT mmicros e).
+    - apply (eqv_ret TT mmicros []). exact I.
+  Qed.
+
+  Lemma consume_event_eqv :
+    EQV TT idf (consume_event ctx X') (consume_event ctx X).
+  Proof.
+    unfold consume_event. apply eqv_get_bind. intros i Hi.
+    change (i_iq (map_istate rho i)) with (i_iq i).
+    change (i_eq (map_istate rho i)) with (i_eq i).
+    change (i_time (map_istate rho i)) with (i_time i).
+    assert (Hq : forall q, EQV TT idf (put ctx X' (set_iq ctx q (map_istate rho i))) (put ctx X (set_iq ctx q i))).
+    { intros q. apply (eqv_put (set_iq ctx q i)). exact Hi. }
+    assert (He : forall q, EQV TT idf (put ctx X' (set_eq ctx q (map_istate rho i))) (put ctx X (set_eq ctx q i))).
+    { intros q. apply (eqv_put (set_eq ctx q i)). exact Hi. }
+    assert (Hr : forall o : option event, EQV TT idf (ret ctx X' o) (ret ctx X o)).
+    { intros o. apply (eqv_ret TT idf o). exact I. }
+    assert (Hext : EQV TT idf
+              match i_eq i with
+              | (t2, e2) :: q2 => if (t2 <=? i_time i)%Z
+                                  then bind ctx X' (put ctx X' (set_eq ctx q2 (map_istate rho i))) (fun _ => ret ctx X' (Some e2))
+                                  else ret ctx X' None
+              | [] => ret ctx X' None
+              end
+              match i_eq i with
+              | (t2, e2) :: q2 => if (t2 <=? i_time i)%Z
+                                  then bind ctx X (put ctx X (set_eq ctx q2 i)) (fun _ => ret ctx X (Some e2))
+                                  else ret ctx X None
+              | [] => ret ctx X None
+              end).
+    { destruct (i_eq i) as [|[t2 e2] q2]; [apply Hr|].
+      destruct (t2 <=? i_time i)%Z; [|apply Hr].
+      eapply eqv_bind; [apply He|]. intros _ _. apply Hr. }
+    destruct (i_iq i) as [|[t e] q']; [exact Hext|].
+    destruct (t <=? i_time i)%Z; [|exact Hext].
+    eapply eqv_bind; [apply Hq|]. intros _ _. apply Hr.
+  Qed.
+
+  Lemma run_steps_eqv fuel steps :
+    EQV TT mmicros (run_steps ctx X' exec_code' eval_code' emit' sc' fuel (mmicros steps))
+                   (run_steps ctx X exec_code eval_code emit sc fuel steps).
+  Proof.
+    induction steps as [|st rest IH]; cbn [run_steps map].
+    - apply (eqv_ret TT mmicros []). exact I.
+    - eapply eqv_bind; [apply apply_step_eqv|]. intros a _.
+      eapply eqv_bind; [apply stabilize_eqv|]. intros ss _.
+      eapply eqv_bind; [apply IH|]. intros r _.
+      change (map_micro rho a :: mmicros ss ++ mmicros r) with (mmicros [a] ++ mmicros ss ++ mmicros r).
+      rewrite <- !map_app. apply (eqv_ret TT mmicros ([a] ++ ss ++ r)). exact I.
+  Qed.
+
+  Lemma check_invariants_eqv ev :
+    EQV TT idf (check_invariants ctx X' eval_code' sc' ev) (check_invariants ctx X eval_code sc ev).
+  Proof.
+    unfold check_invariants. apply eqv_get_bind. intros i Hi.
+    change (i_config (map_istate rho i)) with (map rho (i_config i)).
+    rewrite configuration_rho by apply Hi.
+    apply (eqv_iterM (fun _ => True) rho); [|apply Forall_forall; auto].
+    intros n _. rewrite state_for_rho. destruct (state_for sc n) as [st|]; cbn [option_map].
+    - apply state_contract_eqv.
+    - apply (eqv_fail TT idf EStatechart).
+  Qed.
+
+  Lemma macro_event_rho steps : macro_event (mmicros steps) = macro_event steps.
+  Proof.
+    induction steps as [|s r IH]; cbn [map macro_event]; auto.
+    change (ms_event (map_micro rho s)) with (ms_event s). rewrite IH. reflexivity.
+  Qed.
+
+  Notation mmacro := (option_map (map_macro rho)).
+
+  Lemma execute_once_eqv fuel now :
+    EQV TT mmacro (execute_once ctx X' exec_code' eval_code' emit' sc' fuel now)
+                  (execute_once ctx X exec_code eval_code emit sc fuel now).
+  Proof.
+    unfold execute_once.
+    eapply (eqv_bind TT TT idf).
+    { apply eqv_modify; [intros i; reflexivity|intros i Hi; exact Hi]. }
+    intros _ _. eapply eqv_bind; [apply (raise_meta_eqv (MStepStarted now))|]. intros _ _.
+    eapply eqv_bind; [apply compute_steps_eqv|]. intros steps _.
+    eapply (eqv_bind TT TT mmacro).
+    { destruct steps as [|first rest]; cbn [map].
+      - apply (eqv_ret TT mmacro None). exact I.
+      - eapply (eqv_bind TT TT idf).
+        { change (ms_event (map_micro rho first)) with (ms_event first).
+          destruct (ms_event first) as [e0|]; [|apply eqv_ret_tt].
+          eapply eqv_bind; [apply consume_event_eqv|]. intros e _. unfold idf.
+          destruct e as [e|]; [apply (raise_meta_eqv (MConsumed e))|apply (eqv_fail TT idf EStatechart)]. }
+        intros _ _.
+        eapply eqv_bind; [apply (run_steps_eqv fuel (first :: rest))|]. intros executed _.
+        apply eqv_get_bind. intros i Hi.
+        apply (eqv_ret TT mmacro (Some (i_time i, executed))). exact I. }
+    intros macro _.
+    eapply (eqv_bind TT TT idf).
+    { destruct macro as [[t ex]|]; cbn [option_map map_macro fst snd].
+      - rewrite macro_event_rho. apply check_invariants_eqv.
+      - apply check_invariants_eqv. }
+    intros _ _. eapply eqv_bind; [apply (raise_meta_eqv MStepEnded)|]. intros _ _.
+    apply (eqv_ret TT mmacro macro). exact I.
+  Qed.
+
+  Lemma queue_eqv e : EQV TT idf (queue ctx X' e) (queue ctx X e).
+  Proof.
+    unfold queue. apply eqv_modify; [intros i; apply queue_event_rho|intros i; apply queue_event_closed].
+  Qed.
+
+  Lemma execute_eqv fuel now :
+    EQV TT (map (map_macro rho))
+        (execute ctx X' exec_code' eval_code' emit' sc' fuel now)
+        (execute ctx X exec_code eval_code emit sc fuel now).
+  Proof.
+    induction fuel as [|f IH]; cbn [execute]; [apply (eqv_fail TT (map (map_macro rho)) EFuel)|].
+    eapply eqv_bind; [apply execute_once_eqv|]. intros m _.
+    destruct m as [ms|]; cbn [option_map].
+    - eapply eqv_bind; [apply IH|]. intros r _.
+      apply (eqv_ret TT (map (map_macro rho)) (ms :: r)). exact I.
+    - apply (eqv_ret TT (map (map_macro rho)) []). exact I.
+  Qed.
+
+  (* ---------------------------------------------------------------------------------------- *)
+  (* 5. Main theorems                                                                          *)
+  (* ---------------------------------------------------------------------------------------- *)
+  Definition map_outcome (r : option macrostep + err) : option macrostep + err :=
+    match r with inl m => inl (mmacro m) | inr e => inr (map_err rho e) end.
+
+  (* one execute_once: outcome, post-state and observation trace are the rho-images; the
+     side condition (configuration / history memory inside the chart's names) is preserved *)
+  Theorem C17_equivariance fuel now s :
+    closed s ->
+    execute_once ctx X' exec_code' eval_code' emit' sc' fuel now (map_mstate s)
+    = (map_mstate (fst (execute_once ctx X exec_code eval_code emit sc fuel now s)),
+       map_outcome (snd (execute_once ctx X exec_code eval_code emit sc fuel now s)))
+    /\ closed (fst (execute_once ctx X exec_code eval_code emit sc fuel now s)).
+  Proof.
+    intros Hc. destruct (execute_once_eqv fuel now s Hc) as [E [Hc' _]]. split; [|exact Hc'].
+    rewrite E. reflexivity.
+  Qed.
+
+  Theorem C17_equivariance_queue e s :
+    closed s ->
+    queue ctx X' e (map_mstate s) = (map_mstate (fst (queue ctx X e s)), inl tt)
+    /\ closed (fst (queue ctx X e s)).
+  Proof.
+    intros Hc. destruct (queue_eqv e s Hc) as [E [Hc' _]]. split; [|exact Hc'].
+    rewrite E. reflexivity.
+  Qed.
+
+  (* execute(): the list of macro steps is the image *)
+  Theorem C17_equivariance_execute fuel now s :
+    closed s ->
+    execute ctx X' exec_code' eval_code' emit' sc' fuel now (map_mstate s)
+    = (map_mstate (fst (execute ctx X exec_code eval_code emit sc fuel now s)),
+       match snd (execute ctx X exec_code eval_code emit sc fuel now s) with
+       | inl ms => inl (map (map_macro rho) ms)
+       | inr e => inr (map_err rho e)
+       end)
+    /\ closed (fst (execute ctx X exec_code eval_code emit sc fuel now s)).
+  Proof.
+    intros Hc. destruct (execute_eqv fuel now s Hc) as [E [Hc' _]]. split; [|exact Hc'].
+    rewrite E. reflexivity.
+  Qed.
+
+  (* the freshly constructed interpreter is its own image and satisfies the side condition *)
+  Lemma closed_init id now ign c0 x tr : closed (mkM (init_istate id now ign c0) x tr).
+  Proof. split; constructor. Qed.
+
+  Lemma map_mstate_init id now ign c0 x :
+    map_mstate (mkM (init_istate id now ign c0) x []) = mkM (init_istate id now ign c0) (fx x) [].
+  Proof. reflexivity. Qed.
+
+  (* whole histories *)
+  Theorem C17_equivariance_run fuel ops : forall s,
+    closed s ->
+    run_ops ctx X' exec_code' eval_code' emit' sc' fuel ops (map_mstate s)
+    = (map_mstate (fst (run_ops ctx X exec_code eval_code emit sc fuel ops s)),
+       map map_outcome (snd (run_ops ctx X exec_code eval_code emit sc fuel ops s)))
+    /\ closed (fst (run_ops ctx X exec_code eval_code emit sc fuel ops s)).
+  Proof.
+    induction ops as [|o ops IH]; intros s Hc; cbn [run_ops].
+    - split; [reflexivity|exact Hc].
+    - destruct o as [e|now].
+      + destruct (C17_equivariance_queue e s Hc) as [E Hc']. rewrite E. cbn [fst].
+        apply IH. exact Hc'.
+      + destruct (C17_equivariance fuel now s Hc) as [E Hc']. rewrite E. cbn [fst snd].
+        destruct (IH _ Hc') as [E2 Hc2]. rewrite E2. cbn [fst snd map].
+        split; [reflexivity|exact Hc2].
+  Qed.
 End Equi.
+
+(* ------------------------------------------------------------------------------------------ *)
+(* 6. Corollary: one evaluator, one set of listeners                                           *)
+(* ------------------------------------------------------------------------------------------ *)
+Corollary C17_equivariance_same_evaluator
+  (rho : name -> name) (sc : chart) (ctx X : Type)
+  (exec_code : call ctx -> ctx -> option (ctx * list event))
+  (eval_code : call ctx -> ctx -> option bool)
+  (emit : Z -> meta -> X -> X * option err) :
+  (forall a b, rho a = rho b -> a = b) ->
+  rho "" = "" ->
+  (forall a b, inN sc a -> inN sc b -> str_leb (rho a) (rho b) = str_leb a b) ->
+  (forall c x, exec_code (map_call rho c) x = exec_code c x) ->
+  (forall c x, eval_code (map_call rho c) x = eval_code c x) ->
+  (forall t m x, emit t (map_meta rho m) x
+                 = (fst (emit t m x), option_map (map_err rho) (snd (emit t m x)))) ->
+  forall fuel ops s,
+    closed sc ctx X s ->
+    run_ops ctx X exec_code eval_code emit (map_chart rho sc) fuel ops (map_mstate rho ctx X X (fun x => x) s)
+    = (map_mstate rho ctx X X (fun x => x) (fst (run_ops ctx X exec_code eval_code emit sc fuel ops s)),
+       map (map_outcome rho) (snd (run_ops ctx X exec_code eval_code emit sc fuel ops s))).
+Proof.
+  intros Hinj Hemp Hmono Hexec Heval Hemit fuel ops s Hc.
+  apply (C17_equivariance_run rho Hinj Hemp sc Hmono ctx X X exec_code exec_code eval_code eval_code
+           emit emit (fun x => x) Hexec Heval Hemit fuel ops s Hc).
+Qed.
+
+(* ------------------------------------------------------------------------------------------ *)
+(* 7. Renamings with finite support: a transposition is a global injection                     *)
+(* ------------------------------------------------------------------------------------------ *)
+Definition swap (a a' : name) (x : name) : name :=
+  if String.eqb x a then a' else if String.eqb x a' then a else x.
+
+Lemma swap_inj a a' x y : swap a a' x = swap a a' y -> x = y.
+Proof.
+  unfold swap.
+  destruct (String.eqb_spec x a), (String.eqb_spec x a'), (String.eqb_spec y a), (String.eqb_spec y a');
+    subst; congruence.
+Qed.
+
+Lemma swap_empty a a' : a <> "" -> a' <> "" -> swap a a' "" = "".
+Proof.
+  intros Ha Ha'. unfold swap.
+  destruct (String.eqb_spec "" a); [congruence|]. destruct (String.eqb_spec "" a'); [congruence|].
+  reflexivity.
+Qed.
+
+(* monotonicity on a finite list can be checked by computation *)
+Definition mono_check (rho : name -> name) (l : list name) : bool :=
+  forallb (fun a => forallb (fun b => Bool.eqb (str_leb (rho a) (rho b)) (str_leb a b)) l) l.
+
+Lemma mono_check_sound rho sc :
+  mono_check rho (chart_names sc) = true ->
+  forall a b, inN sc a -> inN sc b -> str_leb (rho a) (rho b) = str_leb a b.
+Proof.
+  unfold mono_check, inN. intros H a b Ha Hb.
+  rewrite forallb_forall in H. specialize (H a Ha). rewrite forallb_forall in H. specialize (H b Hb).
+  apply Bool.eqb_prop in H. exact H.
+Qed.
+
+(* Every renaming that is injective on a finite list L of names (and maps exactly "" to "")
+   coincides on L with a GLOBAL injection fixing "": a product of transpositions. *)
+Fixpoint extend (rho0 : name -> name) (L : list name) : name -> name :=
+  match L with
+  | [] => fun x => x
+  | l :: L' => fun x => swap (extend rho0 L' l) (rho0 l) (extend rho0 L' x)
+  end.
+
+Lemma extend_inj rho0 L a b : extend rho0 L a = extend rho0 L b -> a = b.
+Proof.
+  revert a b. induction L as [|l L IH]; intros a b; cbn [extend]; auto.
+  intros H. apply swap_inj in H. apply IH. exact H.
+Qed.
+
+Lemma swap_l a a' : swap a a' a = a'.
+Proof. unfold swap. rewrite String.eqb_refl. reflexivity. Qed.
+
+Lemma swap_other a a' x : x <> a -> x <> a' -> swap a a' x = x.
+Proof.
+  intros H1 H2. unfold swap.
+  destruct (String.eqb_spec x a); [congruence|]. destruct (String.eqb_spec x a'); [congruence|].
+  reflexivity.
+Qed.
+
+Lemma extend_agree rho0 L :
+  NoDup L -> (forall a b, In a L -> In b L -> rho0 a = rho0 b -> a = b) ->
+  forall a, In a L -> extend rho0 L a = rho0 a.
+Proof.
+  induction 1 as [|l L Hl Hnd IH]; intros Hinj a Ha; [destruct Ha|].
+  cbn [extend]. destruct Ha as [<-|Ha]; [apply swap_l|].
+  assert (IH' : forall x, In x L -> extend rho0 L x = rho0 x).
+  { apply IH. intros x y Hx Hy. apply Hinj; right; assumption. }
+  rewrite (IH' a Ha). apply swap_other.
+  - rewrite <- (IH' a Ha). intros E. apply extend_inj in E. subst. contradiction.
+  - intros E. apply Hinj in E; [subst; contradiction|right; exact Ha|left; reflexivity].
+Qed.
+
+Theorem injection_extends (rho0 : name -> name) (L : list name) :
+  (forall a b, In a L -> In b L -> rho0 a = rho0 b -> a = b) ->
+  (forall a, In a L -> (rho0 a = "" <-> a = "")) ->
+  exists rho, (forall a b, rho a = rho b -> a = b) /\ rho "" = ""
+              /\ (forall a, In a L -> rho a = rho0 a).
+Proof.
+  intros Hinj Hemp.
+  set (r0 := fun x => if String.eqb x "" then "" else rho0 x).
+  set (L' := nodup string_dec ("" :: L)).
+  assert (Hr0 : forall a, In a L -> r0 a = rho0 a).
+  { intros a Ha. unfold r0. destruct (String.eqb_spec a ""); [|reflexivity].
+    subst. symmetry. apply Hemp; auto. }
+  assert (Hinj' : forall a b, In a L' -> In b L' -> r0 a = r0 b -> a = b).
+  { intros a b Ha Hb. unfold L' in Ha, Hb. apply nodup_In in Ha. apply nodup_In in Hb.
+    unfold r0. destruct (String.eqb_spec a ""), (String.eqb_spec b ""); subst; auto.
+    - destruct Hb as [Hb|Hb]; [congruence|]. intros E. symmetry in E.
+      apply (proj1 (Hemp b Hb)) in E. congruence.
+    - destruct Ha as [Ha|Ha]; [congruence|]. intros E.
+      apply (proj1 (Hemp a Ha)) in E. congruence.
+    - destruct Ha as [Ha|Ha]; [congruence|]. destruct Hb as [Hb|Hb]; [congruence|]. apply Hinj; auto. }
+  exists (extend r0 L').
+  split; [intros a b; apply extend_inj|].
+  assert (Hag : forall a, In a L' -> extend r0 L' a = r0 a).
+  { apply extend_agree; [apply NoDup_nodup|exact Hinj']. }
+  split.
+  - rewrite Hag; [reflexivity|]. unfold L'. apply nodup_In. left. reflexivity.
+  - intros a Ha. rewrite Hag; [apply Hr0; exact Ha|]. unfold L'. apply nodup_In. right. exact Ha.
+Qed.
+
+(* map_chart only looks at the names that occur in the chart *)
+Definition olist (o : option name) : list name := match o with Some x => [x] | None => [] end.
+
+Definition all_occ (c : chart) : list name :=
+  concat (map (fun kv : name * state =>
+                 fst kv :: s_name (snd kv) :: olist (s_initial (snd kv)) ++ olist (s_memory (snd kv)))
+              (c_states c))
+  ++ concat (map (fun kv : name * option name => fst kv :: olist (snd kv)) (c_parent c))
+  ++ concat (map (fun kv : option name * list name => olist (fst kv) ++ snd kv) (c_children c))
+  ++ concat (map (fun t => t_source t :: olist (t_target t)) (c_transitions c)).
+
+Lemma option_map_ext_occ (r1 r2 : name -> name) o :
+  (forall n, In n (olist o) -> r1 n = r2 n) -> option_map r1 o = option_map r2 o.
+Proof. destruct o; cbn; intros H; [rewrite H; auto|reflexivity]. Qed.
+
+Lemma in_concat_map {A} (f : A -> list name) l x n : In x l -> In n (f x) -> In n (concat (map f l)).
+Proof. intros Hx Hn. apply in_concat. exists (f x). split; [apply in_map; exact Hx|exact Hn]. Qed.
+
+Lemma map_chart_ext r1 r2 sc :
+  (forall n, In n (all_occ sc) -> r1 n = r2 n) -> map_chart r1 sc = map_chart r2 sc.
+Proof.
+  intros H. unfold all_occ in H. unfold map_chart, map_kv. f_equal.
+  - apply map_ext_in. intros [k st] Hkv. cbn [fst snd].
+    assert (Hs : forall n, In n (k :: s_name st :: olist (s_initial st) ++ olist (s_memory st)) -> r1 n = r2 n).
+    { intros n Hn. apply H. apply in_or_app. left.
+      apply (in_concat_map _ _ _ _ Hkv). exact Hn. }
+    f_equal; [apply Hs; left; reflexivity|].
+    unfold map_state. f_equal.
+    + apply Hs. right. left. reflexivity.
+    + apply option_map_ext_occ. intros n Hn. apply Hs. right. right. apply in_or_app. left. exact Hn.
+    + apply option_map_ext_occ. intros n Hn. apply Hs. right. right. apply in_or_app. right. exact Hn.
+  - apply map_ext_in. intros [k v] Hkv. cbn [fst snd].
+    assert (Hs : forall n, In n (k :: olist v) -> r1 n = r2 n).
+    { intros n Hn. apply H. apply in_or_app. right. apply in_or_app. left.
+      apply (in_concat_map _ _ _ _ Hkv). exact Hn. }
+    f_equal; [apply Hs; left; reflexivity|].
+    apply option_map_ext_occ. intros n Hn. apply Hs. right. exact Hn.
+  - apply map_ext_in. intros [k v] Hkv. cbn [fst snd].
+    assert (Hs : forall n, In n (olist k ++ v) -> r1 n = r2 n).
+    { intros n Hn. apply H. apply in_or_app. right. apply in_or_app. right. apply in_or_app. left.
+      apply (in_concat_map _ _ _ _ Hkv). exact Hn. }
+    f_equal.
+    + apply option_map_ext_occ. intros n Hn. apply Hs. apply in_or_app. left. exact Hn.
+    + apply map_ext_in. intros n Hn. apply Hs. apply in_or_app. right. exact Hn.
+  - apply map_ext_in. intros t Ht.
+    assert (Hs : forall n, In n (t_source t :: olist (t_target t)) -> r1 n = r2 n).
+    { intros n Hn. apply H. apply in_or_app. right. apply in_or_app. right. apply in_or_app. right.
+      apply (in_concat_map _ _ _ _ Ht). exact Hn. }
+    unfold map_trans. f_equal.
+    + apply Hs. left. reflexivity.
+    + apply option_map_ext_occ. intros n Hn. apply Hs. right. exact Hn.
+Qed.
+
+Lemma chart_names_occ sc n : In n (chart_names sc) -> In n (all_occ sc).
+Proof.
+  unfold chart_names, all_occ. intros H. apply in_app_or in H. destruct H as [H|H].
+  - apply in_map_iff in H. destruct H as [kv [<- Hkv]]. apply in_or_app. left.
+    apply (in_concat_map _ _ _ _ Hkv). right. left. reflexivity.
+  - apply in_app_or in H. destruct H as [H|H].
+    + apply in_concat in H. destruct H as [l [Hl Hn]]. apply in_map_iff in Hl.
+      destruct Hl as [kv [<- Hkv]].
+      apply in_or_app. right. apply in_or_app. right. apply in_or_app. left.
+      apply (in_concat_map _ _ _ _ Hkv). apply in_or_app. right. exact Hn.
+    + apply in_map_iff in H. destruct H as [t [<- Ht]].
+      apply in_or_app. right. apply in_or_app. right. apply in_or_app. right.
+      apply (in_concat_map _ _ _ _ Ht). left. reflexivity.
+Qed.
+
+(* The statement with the hypotheses restricted to a finite set L of names (at least the names that
+   occur in the chart): rho0 only has to be injective and order preserving THERE.  The run of the
+   rho0-renamed chart is the image of the original run under a global injection that extends
+   rho0|L.  The evaluator and the listeners ignore state names altogether. *)
+Theorem C17_equivariance_local
+  (rho0 : name -> name) (L : list name) (sc : chart) (ctx X : Type)
+  (exec_code : call ctx -> ctx -> option (ctx * list event))
+  (eval_code : call ctx -> ctx -> option bool)
+  (emit : Z -> meta -> X -> X * option err) :
+  incl (all_occ sc) L ->
+  (forall a b, In a L -> In b L -> rho0 a = rho0 b -> a = b) ->
+  (forall a, In a L -> (rho0 a = "" <-> a = "")) ->
+  (forall a b, inN sc a -> inN sc b -> str_leb (rho0 a) (rho0 b) = str_leb a b) ->
+  (forall r c x, exec_code (map_call r c) x = exec_code c x) ->
+  (forall r c x, eval_code (map_call r c) x = eval_code c x) ->
+  (forall r t m x, emit t (map_meta r m) x
+                   = (fst (emit t m x), option_map (map_err r) (snd (emit t m x)))) ->
+  exists rho,
+    (forall a, In a L -> rho a = rho0 a)
+    /\ (forall a b, rho a = rho b -> a = b)
+    /\ forall fuel ops s,
+         closed sc ctx X s ->
+         run_ops ctx X exec_code eval_code emit (map_chart rho0 sc) fuel ops
+                 (map_mstate rho ctx X X (fun x => x) s)
+         = (map_mstate rho ctx X X (fun x => x) (fst (run_ops ctx X exec_code eval_code emit sc fuel ops s)),
+            map (map_outcome rho) (snd (run_ops ctx X exec_code eval_code emit sc fuel ops s))).
+Proof.
+  intros Hocc Hinj Hemp Hmono Hexec Heval Hemit.
+  destruct (injection_extends rho0 L Hinj Hemp) as [rho [Hi [He Hag]]].
+  exists rho. split; [exact Hag|]. split; [exact Hi|].
+  intros fuel ops s Hc.
+  assert (Hch : map_chart rho0 sc = map_chart rho sc).
+  { apply map_chart_ext. intros n Hn. symmetry. apply Hag, Hocc, Hn. }
+  rewrite Hch.
+  apply (C17_equivariance_same_evaluator rho sc ctx X exec_code eval_code emit Hi He); auto.
+  intros a b Ha Hb. rewrite !Hag by (apply Hocc, chart_names_occ; assumption). apply Hmono; assumption.
+Qed.
+
+(* ------------------------------------------------------------------------------------------ *)
+(* 8. Non-vacuity: an orthogonal state with a history state, renamed "a" -> "a2", "b" -> "b7"  *)
+(* ------------------------------------------------------------------------------------------ *)
+Module Example.
+  Definition st n k i m := mkState n k i m None (Some "x") [] [] ["inv"].
+  Definition tr s t e := mkTrans s (Some t) (Some e) (Some "g") (Some "act") 0%Z [] [] [].
+
+  (*  r (compound, initial o)
+        o (orthogonal; children listed as b, a)
+          a (compound, initial a5): a5, a6, ah (shallow history, default a5)
+          b (compound, initial b8): b8, b9
+        z
+      a5 -e-> a6, b8 -e-> b9, o -out-> z, z -back-> ah *)
+  Definition ex_chart : chart :=
+    mkChart "ex" None None
+      [("r", st "r" KCompound (Some "o") None); ("o", st "o" KOrthogonal None None);
+       ("b", st "b" KCompound (Some "b8") None); ("a", st "a" KCompound (Some "a5") None);
+       ("a5", st "a5" KBasic None None); ("a6", st "a6" KBasic None None);
+       ("ah", st "ah" KShallow None (Some "a5"));
+       ("b8", st "b8" KBasic None None); ("b9", st "b9" KBasic None None);
+       ("z", st "z" KBasic None None)]
+      [("r", None); ("o", Some "r"); ("b", Some "o"); ("a", Some "o"); ("a5", Some "a");
+       ("a6", Some "a"); ("ah", Some "a"); ("b8", Some "b"); ("b9", Some "b"); ("z", Some "r")]
+      [(None, ["r"]); (Some "r", ["o"; "z"]); (Some "o", ["b"; "a"]);
+       (Some "a", ["a5"; "a6"; "ah"]); (Some "b", ["b8"; "b9"]); (Some "a5", []); (Some "a6", []);
+       (Some "ah", []); (Some "b8", []); (Some "b9", []); (Some "z", [])]
+      [tr "a5" "a6" "e"; tr "b8" "b9" "e"; tr "o" "z" "out"; tr "z" "ah" "back"].
+
+  (* order preserving on the chart's names: a < a5 < a6 < ah < b < b8 < b9 < o < r < z *)
+  Definition rho_ex (x : name) : name := swap "a" "a2" (swap "b" "b7" x).
+  (* NOT order preserving: a < b but c > b *)
+  Definition rho_bad (x : name) : name := swap "a" "c" x.
+
+  (* an evaluator that counts the executed fragments, looks at the code, the kind of call and the
+     index of the owner transition, but not at state names *)
+  Definition exec0 (c : call nat) (x : nat) : option (nat * list event) :=
+    Some (S x, match cl_kind c with CAction => [mkEvent Internal "done" []] | _ => [] end).
+  Definition eval0 (c : call nat) (x : nat) : option bool :=
+    Some (match cl_code c with Some "g" | Some "inv" => true | _ => false end).
+  Definition emit0 (t : Z) (m : meta) (x : nat) : nat * option err := (S x, None).
+
+  Definition ev n := mkEvent External n [].
+  Definition ops_ex :=
+    [OpStep 0; OpQueue (ev "e"); OpStep 1; OpStep 1; OpQueue (ev "out"); OpStep 2; OpStep 2;
+     OpQueue (ev "back"); OpStep 3; OpStep 4; OpStep 4].
+  Definition s0 : mstate nat nat := mkM (init_istate 0 0 false 0) 0 [].
+  Definition run (c : chart) := run_ops nat nat exec0 eval0 emit0 c 20 ops_ex s0.
+  Definition image (rho : name -> name) (r : mstate nat nat * list (option macrostep + err)) :=
+    (map_mstate rho nat nat nat (fun x => x) (fst r), map (map_outcome rho) (snd r)).
+
+  (* entered / exited lists of the macro steps of a run *)
+  Definition shape (r : list (option macrostep + err)) : list (list (list name * list name)) :=
+    map (fun o => match o with
+                  | inl (Some m) => map (fun s => (ms_entered s, ms_exited s)) (snd m)
+                  | _ => []
+                  end) r.
+
+  Lemma rho_ex_inj a b : rho_ex a = rho_ex b -> a = b.
+  Proof. unfold rho_ex. intros H. apply swap_inj in H. apply swap_inj in H. exact H. Qed.
+  Lemma rho_ex_empty : rho_ex "" = "".
+  Proof. reflexivity. Qed.
+  Lemma rho_ex_mono a b : inN ex_chart a -> inN ex_chart b -> str_leb (rho_ex a) (rho_ex b) = str_leb a b.
+  Proof. apply mono_check_sound. vm_compute. reflexivity. Qed.
+
+  (* the hypotheses of C17_equivariance are satisfiable by a non-trivial instance *)
+  Example C17_hypotheses_satisfiable :
+    (forall a b, rho_ex a = rho_ex b -> a = b)
+    /\ rho_ex "" = ""
+    /\ (forall a b, inN ex_chart a -> inN ex_chart b -> str_leb (rho_ex a) (rho_ex b) = str_leb a b)
+    /\ (forall c x, exec0 (map_call rho_ex c) x = exec0 c x)
+    /\ (forall c x, eval0 (map_call rho_ex c) x = eval0 c x)
+    /\ (forall t m x, emit0 t (map_meta rho_ex m) x
+                      = (fst (emit0 t m x), option_map (map_err rho_ex) (snd (emit0 t m x))))
+    /\ closed ex_chart nat nat s0
+    /\ rho_ex "a" = "a2" /\ rho_ex "b" = "b7" /\ rho_ex "o" = "o".
+  Proof.
+    split; [exact rho_ex_inj|]. split; [exact rho_ex_empty|]. split; [exact rho_ex_mono|].
+    split; [reflexivity|]. split; [reflexivity|]. split; [reflexivity|].
+    split; [apply closed_init|]. repeat split.
+  Qed.
+
+  (* the theorem applied to the instance *)
+  Example C17_example_by_theorem : run (map_chart rho_ex ex_chart) = image rho_ex (run ex_chart).
+  Proof.
+    unfold run, image.
+    exact (C17_equivariance_same_evaluator rho_ex ex_chart nat nat exec0 eval0 emit0
+             rho_ex_inj rho_ex_empty rho_ex_mono (fun c x => eq_refl) (fun c x => eq_refl)
+             (fun t m x => eq_refl) 20 ops_ex s0 (closed_init ex_chart nat nat 0 0%Z false 0 0 [])).
+  Qed.
+
+  (* ... and the same equation checked by evaluating both runs (independent of the theorem) *)
+  Example C17_example_by_computation : run (map_chart rho_ex ex_chart) = image rho_ex (run ex_chart).
+  Proof. vm_compute. reflexivity. Qed.
+
+  (* the run is not trivial: initial stabilisation of the orthogonal state, two transitions fired by
+     one event (each sends an internal event "done", consumed by the next two macro steps), an
+     exit of the whole orthogonal state (siblings in name order), re-entry through the history
+     state and completion of the orthogonal state; no error; 134 observations in the trace *)
+  Example C17_example_shape :
+    shape (snd (run ex_chart))
+    = [ [(["r"], []); (["o"], []); (["a"; "b"], []); (["a5"], []); (["b8"], [])];
+        [(["a6"], ["a5"]); (["b9"], ["b8"])];
+        [([], [])];
+        [([], [])];
+        [(["z"], ["a6"; "b9"; "a"; "b"; "o"])];
+        [([], [])];
+        [(["o"; "a"; "ah"], ["z"]); (["a6"], ["ah"]); (["b"], []); (["b8"], [])];
+        [([], [])] ]
+    /\ shape (snd (run (map_chart rho_ex ex_chart)))
+    = [ [(["r"], []); (["o"], []); (["a2"; "b7"], []); (["a5"], []); (["b8"], [])];
+        [(["a6"], ["a5"]); (["b9"], ["b8"])];
+        [([], [])];
+        [([], [])];
+        [(["z"], ["a6"; "b9"; "a2"; "b7"; "o"])];
+        [([], [])];
+        [(["o"; "a2"; "ah"], ["z"]); (["a6"], ["ah"]); (["b7"], []); (["b8"], [])];
+        [([], [])] ].
+  Proof. split; vm_compute; reflexivity. Qed.
+
+  (* the local statement: rename exactly two states, every other name is kept -- this rho0 is NOT
+     a global injection ("a" and "a2" both go to "a2") but it is injective on the chart's names *)
+  Definition rho0_ex (x : name) : name :=
+    if String.eqb x "a" then "a2" else if String.eqb x "b" then "b7" else x.
+
+  Example C17_local_hypotheses_satisfiable :
+    incl (all_occ ex_chart) (all_occ ex_chart)
+    /\ (forall a b, In a (all_occ ex_chart) -> In b (all_occ ex_chart) -> rho0_ex a = rho0_ex b -> a = b)
+    /\ (forall a, In a (all_occ ex_chart) -> (rho0_ex a = "" <-> a = ""))
+    /\ (forall a b, inN ex_chart a -> inN ex_chart b -> str_leb (rho0_ex a) (rho0_ex b) = str_leb a b)
+    /\ rho0_ex "a" = rho0_ex "a2".
+  Proof.
+    split; [apply incl_refl|]. split; [|split; [|split; [|reflexivity]]].
+    - assert (H : forallb (fun a => forallb (fun b => implb (String.eqb (rho0_ex a) (rho0_ex b)) (String.eqb a b))
+                                            (all_occ ex_chart)) (all_occ ex_chart) = true)
+        by (vm_compute; reflexivity).
+      intros a b Ha Hb E. rewrite forallb_forall in H. specialize (H a Ha).
+      rewrite forallb_forall in H. specialize (H b Hb).
+      rewrite E, String.eqb_refl in H. cbn [implb] in H. apply String.eqb_eq. exact H.
+    - assert (H : forallb (fun a => Bool.eqb (String.eqb (rho0_ex a) "") (String.eqb a ""))
+                          (all_occ ex_chart) = true)
+        by (vm_compute; reflexivity).
+      intros a Ha. rewrite forallb_forall in H. specialize (H a Ha). apply Bool.eqb_prop in H.
+      rewrite <- !String.eqb_eq. rewrite H. tauto.
+    - apply mono_check_sound. vm_compute. reflexivity.
+  Qed.
+
+  Example C17_local_example_by_computation :
+    map_chart rho0_ex ex_chart = map_chart rho_ex ex_chart
+    /\ run (map_chart rho0_ex ex_chart) = image rho_ex (run ex_chart).
+  Proof. split; vm_compute; reflexivity. Qed.
+
+  (* Monotonicity is needed: rho_bad is a global injection fixing "", the evaluator and the
+     listeners are the same, yet the renamed chart does NOT produce the image of the run: the
+     orthogonal siblings are entered and exited in the order of their NEW names. *)
+  Lemma rho_bad_inj a b : rho_bad a = rho_bad b -> a = b.
+  Proof. apply swap_inj. Qed.
+
+  Example C17_monotonicity_needed_shape :
+    nth 4 (shape (snd (run (map_chart rho_bad ex_chart)))) [] = [(["z"], ["a6"; "b9"; "b"; "c"; "o"])]
+    /\ nth 4 (shape (snd (image rho_bad (run ex_chart)))) [] = [(["z"], ["a6"; "b9"; "c"; "b"; "o"])].
+  Proof. split; vm_compute; reflexivity. Qed.
+End Example.
+
+Theorem C17_monotonicity_needed :
+  exists (rho : name -> name) (sc : chart),
+    (forall a b, rho a = rho b -> a = b) /\ rho "" = ""
+    /\ (forall c x, Example.exec0 (map_call rho c) x = Example.exec0 c x)
+    /\ (forall c x, Example.eval0 (map_call rho c) x = Example.eval0 c x)
+    /\ closed sc nat nat Example.s0
+    /\ Example.run (map_chart rho sc) <> Example.image rho (Example.run sc).
+Proof.
+  exists Example.rho_bad, Example.ex_chart.
+  split; [exact Example.rho_bad_inj|]. split; [reflexivity|]. split; [reflexivity|].
+  split; [reflexivity|]. split; [apply closed_init|].
+  intros H.
+  apply (f_equal (fun r => nth 4 (Example.shape (snd r)) [])) in H.
+  vm_compute in H. discriminate H.
+Qed.
+
+Print Assumptions C17_equivariance.
+Print Assumptions C17_equivariance_queue.
+Print Assumptions C17_equivariance_execute.
+Print Assumptions C17_equivariance_run.
+Print Assumptions C17_equivariance_same_evaluator.
+Print Assumptions injection_extends.
+Print Assumptions C17_equivariance_local.
+Print Assumptions Example.C17_hypotheses_satisfiable.
+Print Assumptions Example.C17_example_by_theorem.
+Print Assumptions Example.C17_local_hypotheses_satisfiable.
+Print Assumptions C17_monotonicity_needed.
